@@ -1,5 +1,6 @@
 // fingerprint: structural fingerprints of the Go functions that hand-written Lean models mirror.
-// usage: fingerprint <repo root> <file>:<func>[,<func>…] …      (func may be Recv.Method)
+// usage: fingerprint <repo root> <file>:<func>[,<func>…] …      (func may be Recv.Method; `<file>:*` = every function of the file;
+//        `<dir>/:*` = every function of every non-test .go file below the directory)
 // Prints JSON {"<file>:<func>": "<sha1 of the function printed without comments>"}.
 // A changed fingerprint proves nothing by itself; the owning check records it in its evidence and runs a
 // larger correspondence stream for that function (DESIGN.md §1, "regenerated facts").
@@ -42,7 +43,22 @@ func name(fd *ast.FuncDecl) string {
 func main() {
 	root := os.Args[1]
 	out := map[string]string{}
+	var args []string
 	for _, arg := range os.Args[2:] {
+		file, fns, _ := strings.Cut(arg, ":")
+		if fns == "*" && strings.HasSuffix(file, "/") {
+			filepath.Walk(filepath.Join(root, file), func(p string, info os.FileInfo, err error) error {
+				if err == nil && !info.IsDir() && strings.HasSuffix(p, ".go") && !strings.HasSuffix(p, "_test.go") && !strings.Contains(p, "/testdata/") {
+					rel, _ := filepath.Rel(root, p)
+					args = append(args, rel+":*")
+				}
+				return nil
+			})
+			continue
+		}
+		args = append(args, arg)
+	}
+	for _, arg := range args {
 		file, fns, _ := strings.Cut(arg, ":")
 		fset := token.NewFileSet()
 		f, err := parser.ParseFile(fset, filepath.Join(root, file), nil, 0) // comments dropped
@@ -56,11 +72,13 @@ func main() {
 		want := map[string]bool{}
 		for _, fn := range strings.Split(fns, ",") {
 			want[fn] = true
-			out[file+":"+fn] = "missing"
+			if fn != "*" {
+				out[file+":"+fn] = "missing"
+			}
 		}
 		for _, d := range f.Decls {
 			fd, ok := d.(*ast.FuncDecl)
-			if !ok || !want[name(fd)] {
+			if !ok || !(want[name(fd)] || want["*"]) {
 				continue
 			}
 			var b bytes.Buffer
